@@ -787,7 +787,7 @@ func main() {
 		}
 	}
 	res.Bounds["payloads"] = pk
-	res.Rule = "member = (string leaf of the definition found by reflection / listed shape of an `any` field, embedding template, canary payload, document profile, non-executing entry point); every member of the product is executed on the real code; distinct = distinct tuple; all are non-trivial: the payload is checked (through the loader's own decode) to sit in exactly the intended leaf"
+	res.Rule = "member = (string leaf of the definition found by reflection / listed shape of an `any` field, embedding template, canary payload, document profile, non-executing entry point); every member of the product is executed on the real code; distinct = distinct tuple; all are non-trivial: the payload is checked (through the loader's own decode) to sit in exactly the intended leaf; during every member the names the document uses in name positions exist in the process environment with sentinel values"
 	res.Assume("a command contained in the definition is observed through the file it creates (touch <canary>); commands are started synchronously by the loaders (exec.Cmd.Output), so the file exists when the entry point returns")
 	res.Assume("hot reload: the watcher is known to have processed the delivered document when a definition renamed into the directory afterwards shows up in the reader's table (one inotify watch delivers in order, one goroutine handles the events); zz_sync_N.yaml helper definitions are therefore added to the member's directory")
 	res.Assume("a variable the definition names is observed through a sentinel the harness sets before the call for every name found in a name position of the document (names.go: output, env keys, params names and positions, call args, $NAME references); a name position that table does not know is only covered by the plain-name payload, whose variable always exists")
